@@ -392,6 +392,84 @@ example : NoClash Names.std [97] (step exRc (.deleteA [97])).1 := noClash_of_che
 example : (step exRc (.deleteA [97])).1.b.lookup [97] = none := by decide
 example : NoClash Names.std [98] (step exCascade (.deleteB [113])).1 := noClash_of_check (by decide)
 
+/-! ### unique indexes over non-string symbols (schema variant `h2`) -/
+
+/-- **Index keys are the stored bytes, whatever the symbol's type.**  In every consistent state and for
+    every schema variant (every choice of `FieldType` bytes for `alias`, `code`, `colour`, `label`): an
+    entry `k ↦ i` of the unique index over `alias` sits next to the entity line
+    `u/things/i/<aliasKey> = <type byte> k` of the dump — the index is keyed by the raw stored bytes of the
+    field (for an int64 symbol the 8-byte encoding, never its decimal rendering), so the key the delete
+    has to remove is the one `symbol.Eval` returns. -/
+theorem alias_index_key_is_stored_bytes {nm : Names} {s : State} (hi : C06.Inv s) {k i : Bytes}
+    (h : s.uAlias.lookup k = some i) :
+    ∃ e, s.a.lookup i = some e ∧ e.alias = some k ∧
+      Line.kv (pathA i) nm.aliasKey (tagged nm.aliasTy k) ∈ Render nm s ∧
+      Line.kv (idxPathA nm.aliasSym) k i ∈ Render nm s := by
+  obtain ⟨hne, e, he, hv⟩ := (hi.uAlias k i).1 h
+  have ha : e.alias = some k := by
+    cases ha : e.alias with
+    | none => simp [ha] at hv; exact absurd hv hne
+    | some a => simp [ha] at hv; rw [hv]
+  refine ⟨e, he, ha, ?_, ?_⟩
+  · have : Line.kv (pathA i) nm.aliasKey (tagged nm.aliasTy k) ∈ s.a.entries.flatMap (renderA nm s) := by
+      simp only [List.mem_flatMap, Prod.exists, C03.Map.mem_entries_iff]
+      exact ⟨i, e, he, by simp [renderA, optFieldT, ha]⟩
+    simp [Render, this]
+  · have : Line.kv (idxPathA nm.aliasSym) k i ∈ s.uAlias.entries.flatMap (renderUnique (idxPathA nm.aliasSym)) := by
+      simp only [List.mem_flatMap, Prod.exists, C03.Map.mem_entries_iff]
+      exact ⟨k, i, h, by simp [renderUnique]⟩
+    simp [Render, this]
+
+/-- the same for the child stores' indexes (`code` of A1, `colour` of the extended A2) and B's `label` -/
+theorem code_index_key_is_stored_bytes {nm : Names} {s : State} (hi : C06.Inv s) {k i : Bytes}
+    (h : s.uCode.lookup k = some i) :
+    ∃ e, s.a.lookup i = some e ∧ e.code = some k ∧
+      Line.kv (pathA i ++ [bExt1]) bCode (tagged nm.codeTy k) ∈ Render nm s := by
+  obtain ⟨hne, e, he, hv⟩ := (hi.uCode k i).1 h
+  have ha : e.code = some k := by
+    cases ha : e.code with
+    | none => simp [ha] at hv; exact absurd hv hne
+    | some a => simp [ha] at hv; rw [hv]
+  refine ⟨e, he, ha, ?_⟩
+  have : Line.kv (pathA i ++ [bExt1]) bCode (tagged nm.codeTy k) ∈ s.a.entries.flatMap (renderA nm s) := by
+    simp only [List.mem_flatMap, Prod.exists, C03.Map.mem_entries_iff]
+    exact ⟨i, e, he, by simp [renderA, ha]⟩
+  simp [Render, this]
+
+/-- the typed variant of the schema (`Names.typedV`: alias int64, code int32, colour float64, label
+    int32; values in their fixed-width little-endian form).  b `p` has label 120; a is created through A1
+    with alias 121 and code 122, gets colour 119 through A2, then its alias is patched to 120. -/
+def exTyped : State := run [[.createB [112] (some (padTo 4 [120]))],
+  [.createA1 [97] ⟨[120], some (padTo 8 [121]), [[109]], some [112], none, [[112]], none, none⟩ (padTo 4 [122]) [[112]]],
+  [.createA2 [97] ⟨[120], some (padTo 8 [121]), [[109]], some [112], none, [[112]], none, none⟩ (padTo 8 [119])],
+  [.updateA [97] ⟨[120], some (padTo 8 [120]), [], none, none, [], none, none⟩ (some ⟨false, true, false, false, false, false, false, false⟩)]]
+
+/-- unique indexes over non-string symbols: the entries are keyed by the 8- / 4-byte encodings, the
+    fields carry their own type bytes (3 int64, 2 int32, 4 float64); the patch moved the alias entry; the
+    delete of a (and then of p) removes every entry and nothing mentions the ids; the value the deleted
+    entity held is free for another entity -/
+theorem typed_variant_witness :
+    exTyped.uAlias.lookup [120, 0, 0, 0, 0, 0, 0, 0] = some [97] ∧ exTyped.uAlias.lookup [121, 0, 0, 0, 0, 0, 0, 0] = none ∧
+    exTyped.uAlias.lookup [49, 50, 48] = none ∧
+    exTyped.uCode.lookup [122, 0, 0, 0] = some [97] ∧ exTyped.uColour.lookup [119, 0, 0, 0, 0, 0, 0, 0] = some [97] ∧
+    exTyped.uLabel.lookup [120, 0, 0, 0] = some [112] ∧
+    Line.kv [C03.bU, C03.bThings, [97]] C03.bAlias [3, 120, 0, 0, 0, 0, 0, 0, 0] ∈ Render Names.typedV exTyped ∧
+    Line.kv [C03.bU, C03.bThings, [97], bExt1] bCode [2, 122, 0, 0, 0] ∈ Render Names.typedV exTyped ∧
+    Line.kv [C03.bU, C03.bThings, [97], bExt2] bColour [4, 119, 0, 0, 0, 0, 0, 0, 0] ∈ Render Names.typedV exTyped ∧
+    Line.kv [C03.bU, bOwners, [112]] bLabel [2, 120, 0, 0, 0] ∈ Render Names.typedV exTyped ∧
+    Line.kv [C03.bU, C03.bIndexes, C03.bThings, C03.bAlias] [120, 0, 0, 0, 0, 0, 0, 0] [97] ∈ Render Names.typedV exTyped ∧
+    (step exTyped (.deleteA [97])).2 = .ok ∧
+    (step exTyped (.deleteA [97])).1.uAlias = [] ∧ (step exTyped (.deleteA [97])).1.uCode = [] ∧
+    (step exTyped (.deleteA [97])).1.uColour = [] ∧
+    (Render Names.typedV (step exTyped (.deleteA [97])).1).filter (fun l => decide (Mentions [97] l)) = [] ∧
+    (step (step exTyped (.deleteA [97])).1 (.createA [98] ⟨[121], some (padTo 8 [120]), [], none, none, [], none, none⟩)).2 = .ok ∧
+    (Render Names.typedV (txStep exTyped [.deleteA [97], .deleteB [112]]).1).filter
+      (fun l => decide (Mentions [97] l) || decide (Mentions [112] l)) = [] := by
+  decide
+
+example : NoClash Names.typedV [97] (step exTyped (.deleteA [97])).1 := noClash_of_check (by decide)
+example : NoClash Names.typedV [112] (txStep exTyped [.deleteA [97], .deleteB [112]]).1 := noClash_of_check (by decide)
+
 end StorageModel.Properties.C06
 
 #print axioms StorageModel.Properties.C06.inv_reachable
@@ -404,3 +482,5 @@ end StorageModel.Properties.C06
 #print axioms StorageModel.Properties.C06.no_fk_names_absent
 #print axioms StorageModel.Properties.C06.recreate_fresh
 #print axioms StorageModel.Properties.C06.recreate_as_if_never_existed
+#print axioms StorageModel.Properties.C06.alias_index_key_is_stored_bytes
+#print axioms StorageModel.Properties.C06.code_index_key_is_stored_bytes
